@@ -216,7 +216,7 @@ fn arrival(nframes: u8, nrx: u8, grid: Vec<u64>) -> impl Strategy<Value = Arriva
 }
 
 pub fn run(ctx: &Ctx) {
-    ctx.set_rule("arrival histories over a pool of 6 frames (5 decodable, 1 DF17 with a bad syndrome) x up to 3 receivers, timestamps on an exact millisecond grid (non-decreasing, equal, decreasing, far apart), windows {0,1,2,5,400,450}: exhaustive for length <= 5 (thorough 6) over 2 frames x 2 receivers x 4 grid times x 3 windows; proptest-random up to 200 arrivals. Driven through the real deduplicate_messages (send all, close, drain). Oracle: an executable reference model for the exact output sequence, plus model-free invariants (nothing invented / lost / duplicated, record timestamp = first arrival, receptions in arrival order; for non-decreasing arrivals same-frame records >= window apart and output ordered by first arrival). End to end: overlapping sets of frames are served to the real jet1090 binary through two Beast TCP sources (window 20-150 ms, wall-clock arrivals): nothing invented, per frame the receptions printed equal the receptions sent per receiver, record time = first reception, undecodable frames never appear. Non-trivial = >= 1 emitted record with >= 2 receptions; distinct by hash of (history, window).");
+    ctx.set_rule("arrival histories over a pool of 6 frames (5 decodable, 1 DF17 with a bad syndrome) x up to 3 receivers, timestamps on an exact millisecond grid (non-decreasing, equal, decreasing, far apart), windows {0,1,2,5,400,450}: exhaustive for length <= 5 (thorough 6) over 2 frames x 2 receivers x 4 grid times x 3 windows; proptest-random up to 200 arrivals. Driven through the real deduplicate_messages (send all, close, drain). Oracle: an executable reference model for the exact output sequence, plus model-free invariants (nothing invented / lost / duplicated, record timestamp = first arrival, receptions in arrival order; for non-decreasing arrivals same-frame records >= window apart and output ordered by first arrival). End to end: overlapping sets of frames are served to the real jet1090 binary through two Beast TCP sources (window 20-150 ms, wall-clock arrivals): nothing invented, per frame the receptions printed equal the receptions sent per receiver, record time = first reception, undecodable frames never appear; and through one source with windows of 1.2-3.1 s: two printed records of the same frame never have first arrivals closer than the window. Non-trivial = >= 1 emitted record with >= 2 receptions; distinct by hash of (history, window).");
     ctx.assume("the implementation's own millisecond clock ((timestamp * 1e3) as u128) is the clock; timestamps are generated mid-millisecond so that the conversion is exact");
     let frames = pool();
     let decodable: Vec<bool> = frames.iter().map(|f| Message::try_from(f.as_slice()).is_ok()).collect();
@@ -314,6 +314,18 @@ pub fn run(ctx: &Ctx) {
     // the deduplicator as the application wires it: two TCP sources into the real binary
     match crate::e2e::Env::from_env() {
         Some(env) => {
+            // windows of more than a second, in real time, beside the other scenarios
+            let longs: Vec<(u32, u64)> = [1200u32, 1500, 2500, 1000, 2000, 3100].iter().take(ctx.tier.pick(3, 6)).enumerate().map(|(i, w)| (*w, ctx.sub("long-window") ^ i as u64)).collect();
+            let env2 = &env;
+            let long_fails: Vec<Failure> = longs.par_iter().filter_map(|(w, salt)| {
+                ctx.eval();
+                let sc = long_window_scenario(*w, *salt);
+                let rep = json!({"kind": "e2e-long", "scenario": crate::e2e::scenario_json(&sc)});
+                replay_long(ctx, env2, &sc, &rep, &format!("c10-long-{w}")).err()
+            }).collect();
+            for f in long_fails {
+                ctx.judge(Err(f));
+            }
             let n = ctx.tier.pick(48u32, 640u32);
             let case = (proptest::collection::vec((0u8..=14, any::<bool>(), any::<bool>(), 0u8..3), 1..24), proptest::sample::select(vec![20u32, 60, 150])).prop_map(|(items, window)| E2eCase { items, window });
             (0..16u32).into_par_iter().for_each(|s| {
@@ -509,6 +521,61 @@ pub fn judge_e2e(ctx: &Ctx, sc: &crate::e2e::Scenario, out: &crate::e2e::Outcome
     Ok(())
 }
 
+/// One receiver, a window longer than a second (`--deduplication 1200 / 1500 / 2500`), a handful of frames that come
+/// back every few hundred milliseconds with other frames in between. Arrival stamps of one connection never decrease,
+/// so the property's own clause applies to what is printed: two records of the same frame never have first arrivals
+/// closer than the window (1 ms slack for the millisecond clock).
+pub fn long_window_scenario(window: u32, salt: u64) -> crate::e2e::Scenario {
+    let big = cli_pool();
+    let mut sends = vec![];
+    let mut r = vcore::ev::SplitMix::new(salt);
+    // about 2.5 windows of traffic
+    let steps = (window as u64 * 5 / 2 / 150) as usize;
+    for _ in 0..steps {
+        let f = big[r.below(4) as usize].clone();
+        sends.push(crate::e2e::Send { source: 0, frame: f, pause_ms: 100 + r.below(100) as u32, cut: 0, clock_offset_s: None });
+    }
+    crate::e2e::Scenario { references: vec![None], sends, dedup_ms: window, ..Default::default() }
+}
+
+pub fn judge_long_window(ctx: &Ctx, sc: &crate::e2e::Scenario, out: &crate::e2e::Outcome, rep: &Value) -> Check {
+    let fail = |sig: &str, d: String| Failure::new(format!("c10:e2e:{sig}"), d, rep.clone());
+    let mut firsts: BTreeMap<String, Vec<f64>> = BTreeMap::new();
+    for l in &out.lines {
+        let v: Value = serde_json::from_str(l).map_err(|e| fail("malformed-line", format!("{e}: {l}")))?;
+        if crate::e2e::is_marker(&v["icao24"]) {
+            continue;
+        }
+        if let (Some(f), Some(t)) = (v["frame"].as_str(), v["timestamp"].as_f64()) {
+            firsts.entry(f.to_string()).or_default().push(t);
+        }
+    }
+    for (f, ts) in &firsts {
+        let mut ts = ts.clone();
+        ts.sort_by(|a, b| a.partial_cmp(b).unwrap());
+        if let Some(w) = ts.windows(2).find(|w| (w[1] - w[0]) * 1000.0 < sc.dedup_ms as f64 - 1.0) {
+            return Err(fail("same-frame-records-closer-than-the-window", format!("frame {f}: records with first arrivals {:.3} and {:.3}, {:.0} ms apart; the window is {} ms", w[0], w[1], (w[1] - w[0]) * 1000.0, sc.dedup_ms)));
+        }
+    }
+    ctx.class("end-to-end long-window scenario judged");
+    ctx.nontrivial(h64(&("e2e-long", rep.to_string())));
+    Ok(())
+}
+
+pub fn replay_long(ctx: &Ctx, env: &crate::e2e::Env, sc: &crate::e2e::Scenario, rep: &Value, tag: &str) -> Check {
+    match crate::e2e::play_twice(env, sc, tag) {
+        Err(crate::e2e::Fail::Skip(why)) => {
+            ctx.exclude(&format!("end-to-end scenario not judged: {}", why.split(':').next().unwrap_or("")));
+            Ok(())
+        }
+        Err(crate::e2e::Fail::Died(why)) => Err(Failure::new("c10:e2e:jet1090-died", format!("jet1090 {why} (twice)"), rep.clone())),
+        Ok(out) => {
+            judge_e2e(ctx, sc, &out, rep)?;
+            judge_long_window(ctx, sc, &out, rep)
+        }
+    }
+}
+
 pub fn replay_e2e(ctx: &Ctx, env: &crate::e2e::Env, sc: &crate::e2e::Scenario, rep: &Value, tag: &str) -> Check {
     match crate::e2e::play_twice(env, sc, tag) {
         Err(crate::e2e::Fail::Skip(why)) => {
@@ -528,6 +595,15 @@ pub fn replay(ctx: &Ctx, v: &Value) {
         };
         ctx.eval();
         ctx.judge(replay_e2e(ctx, &env, &crate::e2e::scenario_of(&v["scenario"]), v, "c10-replay"));
+        return;
+    }
+    if v["kind"] == "e2e-long" {
+        let Some(env) = crate::e2e::Env::from_env() else {
+            eprintln!("INCONCLUSIVE: JET1090_BIN / VERIF_E2E_CACHE are not set (replay through ./check)");
+            std::process::exit(2);
+        };
+        ctx.eval();
+        ctx.judge(replay_long(ctx, &env, &crate::e2e::scenario_of(&v["scenario"]), v, "c10-replay"));
         return;
     }
     let frames = pool();
